@@ -218,6 +218,107 @@ pub fn run_random_strings(out: &mut Out, cfg: &Cfg, seed: u64, n: usize) {
     }
 }
 
+/// documented spellings that are not the printed form: quoted atoms (with blanks, commas, non-ASCII
+/// letters inside), extra blanks around separators, goals and facts without `()`, infix comparison
+/// and arithmetic. Each must parse, without panic, to the value it denotes.
+pub fn run_spellings(out: &mut Out, cfg: &Cfg, seed: u64, n: usize) {
+    let mut r = Rng::new(seed);
+    let quoted = ["café", "日本", "東京 駅", "éa", "a, b", "Hello World", "x", "ünï cödé", "(not a term)", "[no list", "semi;colon", "Ω"];
+    for i in 0..n {
+        let q = *r.pick(&quoted);
+        let qa = Unifiable::Atom(q.to_string());
+        let v = *r.pick(&VARS);
+        match i % 8 {
+            0 => emit_spelling(out, cfg, "term", &format!("\"{}\"", q), Parsed::Term(qa)),
+            1 => emit_spelling(out, cfg, "complex", &format!("f(\"{}\", {})", q, v), Parsed::Term(Unifiable::SComplex(vec![atom!("f"), qa, logic_var!(v)]))),
+            2 => emit_spelling(out, cfg, "list", &format!("[a, \"{}\" | {}]", q, v), Parsed::Term(crate::gen::proper_list(vec![atom!("a"), qa], Some(logic_var!(v))))),
+            3 => emit_spelling(out, cfg, "subgoal", &format!("{} = \"{}\"", v, q), Parsed::Goal(Goal::BuiltInGoal(BuiltInPredicate::new("unify".into(), Some(vec![logic_var!(v), qa]))))),
+            4 => emit_spelling(out, cfg, "rule", &format!("g(\"{}\").", q), Parsed::Rule(Rule{head: Unifiable::SComplex(vec![atom!("g"), qa]), body: Goal::Nil})),
+            5 => {
+                // extra blanks around separators and brackets
+                let mut g = Gen{r: &mut r, depth: 2};
+                let (t, val) = loop { let x = g.term(0); if let Unifiable::SComplex(_) = x.1 { break x; } };
+                let spaced = t.replace(", ", " ,   ").replace("(", "(  ").replace(")", " )");
+                if !spaced.contains("[  ") && !t.contains("()") && !t.contains(" | ") { emit_spelling(out, cfg, "complex", &format!("  {}  ", spaced), Parsed::Term(val)); }
+            },
+            6 => {
+                // infix comparison / arithmetic
+                let op = *r.pick(&[("<", "less_than"), ("<=", "less_than_or_equal"), (">", "greater_than"), (">=", "greater_than_or_equal"), ("==", "equal")]);
+                let k = r.below(50) as i64;
+                emit_spelling(out, cfg, "subgoal", &format!("{} {} {}", v, op.0, k), Parsed::Goal(Goal::BuiltInGoal(BuiltInPredicate::new(op.1.into(), Some(vec![logic_var!(v), SInteger(k)])))));
+                let ar = *r.pick(&[("+", "add"), ("-", "subtract"), ("*", "multiply"), ("/", "divide")]);
+                emit_spelling(out, cfg, "term", &format!("{} {} {}", v, ar.0, k), Parsed::Term(Unifiable::SFunction{name: ar.1.into(), terms: vec![logic_var!(v), SInteger(k)]}));
+            },
+            7 if i % 16 == 7 => {
+                // parenthesised groups, also nested inside each other (documented: parentheses group goals)
+                let a = || Goal::ComplexGoal(Unifiable::SComplex(vec![atom!("a")]));
+                let b = || Goal::ComplexGoal(Unifiable::SComplex(vec![atom!("b")]));
+                let c = || Goal::ComplexGoal(Unifiable::SComplex(vec![atom!("c")]));
+                let d = || Goal::ComplexGoal(Unifiable::SComplex(vec![atom!("d")]));
+                let and = |v: Vec<Goal>| Goal::OperatorGoal(Operator::And(v));
+                let or = |v: Vec<Goal>| Goal::OperatorGoal(Operator::Or(v));
+                match r.below(6) {
+                    0 => emit_spelling(out, cfg, "goal", "(a; b), c", Parsed::Goal(and(vec![or(vec![a(), b()]), c()]))),
+                    1 => emit_spelling(out, cfg, "goal", "a, (b; c)", Parsed::Goal(and(vec![a(), or(vec![b(), c()])]))),
+                    2 => emit_spelling(out, cfg, "goal", "(a, b); (c, d)", Parsed::Goal(or(vec![and(vec![a(), b()]), and(vec![c(), d()])]))),
+                    3 => emit_nested(out, cfg, "a, (b, (c; d))", Parsed::Goal(and(vec![a(), and(vec![b(), or(vec![c(), d()])])]))),
+                    4 => emit_nested(out, cfg, "((a; b), c); d", Parsed::Goal(or(vec![and(vec![or(vec![a(), b()]), c()]), d()]))),
+                    _ => emit_nested(out, cfg, "a; (b, (c; d))", Parsed::Goal(or(vec![a(), and(vec![b(), or(vec![c(), d()])])]))),
+                }
+            },
+            _ => {
+                // a goal / fact of arity 0 written without parentheses
+                let f = *r.pick(&["halt", "go", "x", "ab"]);
+                emit_spelling(out, cfg, "subgoal", f, Parsed::Goal(Goal::ComplexGoal(Unifiable::SComplex(vec![atom!(f)]))));
+                emit_spelling(out, cfg, "rule", &format!("{}.", f), Parsed::Rule(Rule{head: Unifiable::SComplex(vec![atom!(f)]), body: Goal::Nil}));
+                emit_spelling(out, cfg, "rule", &format!("{} :- {}, nl.", f, v.replace("$", "p_")), Parsed::Rule(Rule{head: Unifiable::SComplex(vec![atom!(f)]),
+                    body: Goal::OperatorGoal(Operator::And(vec![Goal::ComplexGoal(Unifiable::SComplex(vec![atom!(v.replace("$", "p_"))])), Goal::BuiltInGoal(BuiltInPredicate::new("nl".into(), None))]))}));
+            },
+        }
+    }
+}
+
+/// a goal with a parenthesised group inside a parenthesised group
+fn emit_nested(out: &mut Out, cfg: &Cfg, s: &str, want: Parsed) {
+    if !out.begin() { return; }
+    let id = out.case(&format!("parse goal {}", hex(s)));
+    let p = run_entry("goal", s);
+    let printed = match &p { Parsed::Err | Parsed::Panic => String::new(), _ => match show(&p) { Some(t) => format!(" P {}", hex(&t)), None => " P panic".to_string() } };
+    out.impl_line(id, &format!("{}{}", dump(&p), printed));
+    if cfg.want("C18") { out.oracle(id, "C18", p != Parsed::Panic, &format!("generate_goal panicked on `{}`", s)); }
+    if cfg.want("C19") { out.oracle(id, "C19", dump(&p) == dump(&want), &format!("nested parenthesised groups: `{}` parses to a different goal than the one it denotes", s)); }
+}
+
+fn emit_spelling(out: &mut Out, cfg: &Cfg, entry: &str, s: &str, want: Parsed) {
+    if !out.begin() { return; }
+    let id = out.case(&format!("parse {} {}", entry, hex(s)));
+    let p = run_entry(entry, s);
+    let printed = match &p { Parsed::Err | Parsed::Panic => String::new(), _ => match show(&p) { Some(t) => format!(" P {}", hex(&t)), None => " P panic".to_string() } };
+    out.impl_line(id, &format!("{}{}", dump(&p), printed));
+    out.stat(&format!("spelling_{}_{}", entry, match &p { Parsed::Err => "err", Parsed::Panic => "panic", _ => "ok" }), 1);
+    if cfg.want("C18") { out.oracle(id, "C18", p != Parsed::Panic, &format!("parse_{} panicked on `{}`", entry, s)); }
+    if cfg.want("C19") {
+        let ok = dump(&p) == dump(&want);
+        out.oracle(id, "C19", ok, &format!("the documented spelling `{}` {}", s, match &p { Parsed::Err => "is rejected".to_string(), Parsed::Panic => "makes the parser panic".to_string(), _ => "parses to a different value than the one it denotes".to_string() }));
+    }
+}
+
+/// all strings of length <= maxlen over a small alphabet aimed at the tokenizer and the grouping stage
+pub fn run_exhaustive_goal_strings(out: &mut Out, cfg: &Cfg, maxlen: usize, shard: usize, nshards: usize) {
+    let alpha: Vec<char> = vec!['a', '(', ')', ',', ';', ' ', '[', ']', '"', '\\'];
+    let mut idx = 0usize;
+    for len in 0..=maxlen {
+        let total = alpha.len().pow(len as u32);
+        for code in 0..total {
+            idx += 1; if idx % nshards != shard { continue; }
+            let mut c = code; let mut s = String::new();
+            for _ in 0..len { s.push(alpha[c % alpha.len()]); c /= alpha.len(); }
+            emit_parse(out, cfg, "goal", &s, None);
+            if len + 5 <= maxlen + 5 { emit_parse(out, cfg, "rule", &format!("h :- {}.", s), None); }
+        }
+    }
+}
+
 /// all strings of length <= maxlen over a 12-symbol sub-alphabet, for every entry point
 pub fn run_exhaustive_strings(out: &mut Out, cfg: &Cfg, maxlen: usize, shard: usize, nshards: usize) {
     let alpha: Vec<char> = vec!['a', '$', 'X', '1', '(', ')', '[', ']', ',', ' ', '=', '\\'];
@@ -237,7 +338,10 @@ pub fn run_exhaustive_strings(out: &mut Out, cfg: &Cfg, maxlen: usize, shard: us
 
 pub fn run_contexts(out: &mut Out, cfg: &Cfg, seed: u64, n: usize) {
     let mut r = Rng::new(seed);
-    let specials = ["-3", "+7", "-0.5", "1.5", "-", "+", "*", "?", "!", "a-b", "1-2", "x+1", "$", "$1", "007", "1e5", "...", "a.b", "3.", ".5"];
+    let specials = ["-3", "+7", "-0.5", "1.5", "-", "+", "*", "?", "!", "a-b", "1-2", "x+1", "$", "$1", "007", "1e5", "...", "a.b", "3.", ".5",
+                    "1 2", "1.5 2", "12 ", " 12", "- 3", "12\u{a0}", "1\u{2003}2", "1\t2", "+", "+ 7", "7+", "-.5", "5.", "0", "-0", "9223372036854775807", "9223372036854775808", "-9223372036854775808",
+                    "$Ω", "$é1", "$_x", "$_", "\\,", "a\\,b", "\"1 2\"", "\"12\"",
+                    "$X + 1", "1 + 2", "$A * $B", "a - b", "6 / 3", "1.5 + $X"];
     for i in 0..n {
         let text = if i % 3 == 0 { (*r.pick(&specials)).to_string() } else { let mut g = Gen{r: &mut r, depth: 2}; g.term(0).0 };
         if !out.begin() { continue; }
@@ -248,6 +352,10 @@ pub fn run_contexts(out: &mut Out, cfg: &Cfg, seed: u64, n: usize) {
         let in_list = run_entry("list", &format!("[{}]", text));
         let in_infix = run_entry("subgoal", &format!("{} = x", text));
         let in_query = run_entry("query", &format!("q({})", text));
+        // not the first of its siblings: after a float, after an atom with a period, after a quoted atom
+        let in_complex2 = run_entry("complex", &format!("f(2.5, {})", text));
+        let in_complex3 = run_entry("complex", &format!("f(\"x y\", a.b, {}, 1)", text));
+        let in_list2 = run_entry("list", &format!("[0.5, {}]", text));
         let pick = |p: &Parsed, what: &str| -> String {
             match (p, what) {
                 (Parsed::Term(Unifiable::SComplex(a)), "complex") if a.len() == 2 => format!("ok {}", zero_ids(&a[1])),
@@ -255,18 +363,30 @@ pub fn run_contexts(out: &mut Out, cfg: &Cfg, seed: u64, n: usize) {
                 (Parsed::Goal(Goal::BuiltInGoal(b)), "infix") => match &b.terms { Some(ts) if ts.len() == 2 => format!("ok {}", zero_ids(&ts[0])), _ => "other".into() },
                 (Parsed::Goal(Goal::ComplexGoal(Unifiable::SComplex(a))), "query") if a.len() == 2 => format!("ok {}", zero_ids(&a[1])),
                 (Parsed::Term(t), "alone") => format!("ok {}", zero_ids(t)),
+                (Parsed::Term(Unifiable::SComplex(a)), "complex2") if a.len() == 3 => format!("ok {}", zero_ids(&a[2])),
+                (Parsed::Term(Unifiable::SComplex(a)), "complex3") if a.len() == 5 => format!("ok {}", zero_ids(&a[3])),
+                (Parsed::Term(Unifiable::SLinkedList{next, ..}), "list2") => match &**next { Unifiable::SLinkedList{term, ..} => format!("ok {}", zero_ids(term)), _ => "other".into() },
                 (Parsed::Err, _) => "err".into(), (Parsed::Panic, _) => "panic".into(),
                 _ => "other".into(),
             }
         };
-        let res = [pick(&alone, "alone"), pick(&in_complex, "complex"), pick(&in_list, "list"), pick(&in_infix, "infix"), pick(&in_query, "query")];
+        let res = [pick(&alone, "alone"), pick(&in_complex, "complex"), pick(&in_list, "list"), pick(&in_infix, "infix"), pick(&in_query, "query"),
+                   pick(&in_complex2, "complex2"), pick(&in_complex3, "complex3"), pick(&in_list2, "list2")];
         out.impl_line(id, &res.join(" | "));
         if cfg.want("C20") {
             // a text with a top-level comma / bar / bracket is several things in a larger context: only compare single terms
             let single = matches!(alone, Parsed::Term(_)) && !text.contains(',') && !text.contains('|') && !text.contains(" = ") && !text.contains(" + ") && !text.contains(" - ") && !text.contains(" * ") && !text.contains(" / ");
+            let arith = [" + ", " - ", " * ", " / "].iter().any(|op| text.contains(op)) && !text.contains(',') && !text.contains('|') && !text.contains(" = ");
+            if arith && matches!(alone, Parsed::Term(Unifiable::SFunction{..})) {
+                // an arithmetic expression: a function term alone; must be the same function term everywhere
+                let all_same = res.iter().all(|x| *x == res[0]);
+                let names = ["alone", "as argument", "as list element", "as infix operand", "as query argument", "as an argument after a float", "as an argument among other arguments", "as a list element after a float"];
+                let k = res.iter().position(|x| *x != res[0]).unwrap_or(0);
+                out.oracle(id, "C20", all_same, &format!("text with a top-level arithmetic infix: `{}` {} is {} but {} it is {}", text, names[0], crate::tools_pretty(&res[0]), names[k], crate::tools_pretty(&res[k])));
+            } else
             if single || text.starts_with('[') || text.ends_with(')') {
                 let all_same = res.iter().all(|x| *x == res[0]);
-                let names = ["alone", "as argument", "as list element", "as infix operand", "as query argument"];
+                let names = ["alone", "as argument", "as list element", "as infix operand", "as query argument", "as an argument after a float", "as an argument among other arguments", "as a list element after a float"];
                 let k = res.iter().position(|x| *x != res[0]).unwrap_or(0);
                 out.oracle(id, "C20", all_same, &format!("`{}` {} is {} but {} it is {}", text, names[0], crate::tools_pretty(&res[0]), names[k], crate::tools_pretty(&res[k])));
             }
